@@ -519,7 +519,9 @@ fn check_ms(store: &MemStorage, m: &MsModel, case: &MsCase, stats: &mut MsStats)
     // snapshot(request_index): only defined when the commit index is retained or is the snapshot point
     let c = m.hs.commit;
     if c == m.snap_index || m.term(c).is_some() {
-        for req in [0u64, c, c + 2] {
+        let mut reqs: Vec<u64> = vec![0, c + 2];
+        reqs.extend(m.snap_index.saturating_sub(1)..=c + 1);
+        for req in reqs {
             let s = store.snapshot(req, 1).map_err(|e| format!("snapshot({}): {:?}", req, e))?;
             let meta = s.get_metadata();
             if meta.index < req {
